@@ -236,6 +236,7 @@ def add_face_post(C):
     reuse = o.len(q) > 0
     slot = n.elem(fl, rid)
     out = [('returns-a-slot-of-the-list', z3.And(rid >= 0, rid < n.len(fl))),
+           ('returns-a-slot-that-was-not-in-use', z3.Or(rid >= o.len(fl), z3.Not(o.f(o.elem(fl, rid), 'face.is_used_')))),
            ('reuses-the-last-free-slot-or-appends', z3.If(reuse, z3.And(rid == o.at(q, o.len(q) - 1, 'int'), n.len(fl) == o.len(fl), n.len(q) == o.len(q) - 1),
                                                           z3.And(rid == o.len(fl), n.len(fl) == o.len(fl) + 1, n.len(q) == o.len(q)))),
            ('new-face-is-a-used-copy-with-its-slot-as-id', z3.And(n.f(slot, 'face.is_used_'), n.f(slot, 'face.local_face_id_') == rid, n.f(slot, 'face.type_id_') == o.f(src, 'face.type_id_'),
@@ -388,14 +389,32 @@ def add_face_view(prop):
         fl = faces(o, C.this)
         q = ffq(o, C.this)
         return [('returns-a-slot-of-the-list', z3.And(C.ret >= 0, C.ret < n.len(fl))), ('face-list-does-not-shrink', n.len(fl) >= o.len(fl)),
+                ('returns-a-slot-that-was-not-in-use-and-is-in-use-now', z3.And(z3.Or(C.ret >= o.len(fl), z3.Not(o.f(o.elem(fl, C.ret), 'face.is_used_'))), n.f(n.elem(fl, C.ret), 'face.is_used_'))),
+                ('faces-in-use-stay-in-use', QForall(lambda j: z3.Implies(z3.And(j >= 0, j < o.len(fl), o.f(o.elem(fl, j), 'face.is_used_')), n.f(o.elem(fl, j), 'face.is_used_')), 1, 'used faces')),
                 ('other-vectors-untouched', QForall(lambda r: z3.Implies(z3.And(r != fl, r != q), z3.And(n.f(r, 'vec.len') == o.f(r, 'vec.len'), n.f(r, 'vec.epoch') == o.f(r, 'vec.epoch'))), 1, 'other vectors'))]
     return Contract('cell::add_face', prop, assumed=True, throws=['mesh_integrity_exception'], post=post, ret_model=note_new_face,
                     frame=lambda C: [(k, None) for k in ADD_FACE_ASSIGNS], name='cell::add_face (view: frame and result range; requires discharged by the topology contract)')
 
 
+def note_label(C, st):
+    k = st.ghost.get('label_count', 0)
+    st.ghost['label_count'] = k + 1
+    st.ghost['label_%d_face' % k] = C.this.ref if hasattr(C.this, 'ref') else C.this
+    st.ghost['label_%d_value' % k] = C.val('type_id')
+    return None
+
+
+def set_label_contract(prop):
+    """face::set_face_type_id (a one-line setter: type_id_ = id) as split_edge sees it; every call is recorded"""
+    def post(C):
+        return [('stores-the-label', C.new.f(C.this, 'face.type_id_') == C.val('type_id'))]
+    return Contract('face::set_face_type_id', prop, assumed=True, frame=lambda C: [('face.type_id_', [C.this.ref])], post=post, ret_model=note_label,
+                    name='face::set_face_type_id (setter; calls recorded)')
+
+
 def split_light_callees(prop):
     an = add_node_contract(prop, assumed=True); an.ret_model = note_new_node
-    return [an, add_face_view(prop), delete_face_view(prop), get_edge_contract(prop, assumed=True)]
+    return [an, add_face_view(prop), delete_face_view(prop), get_edge_contract(prop, assumed=True), set_label_contract(prop)]
 
 
 def split_light_pre(C):
@@ -426,8 +445,9 @@ def split_winding_post(C):
         nrm = o.v3(F, 'face.normal_')
         same_side = (P(a) - P(third)).cross(P(b) - P(third)).dot(nrm) >= 0
         (x1, y1), (x2, y2) = want[k]
+        fresh = z3.And(eid != a, eid != b, eid != g['cc'], eid != g['dd'])
         out.append(('requested-face-%d-is-wound-like-the-face-it-replaces' % (k + 3),
-                    z3.And(n1 == third, z3.If(same_side, z3.And(n2 == x1, n3 == y1), z3.And(n2 == x2, n3 == y2)))))
+                    z3.And(n1 == third, z3.If(same_side, z3.And(n2 == x1, n3 == y1), z3.And(n2 == x2, n3 == y2))), None, [fresh]))
     return out
 
 
@@ -442,8 +462,33 @@ def split_lemmas(reg, prop):
               note='with cr.n >= 0 the triangles (c,a,e),(c,e,b) have area vectors with non-negative component along the cached normal n; with cr.n < 0 the reversed triangles (c,e,a),(c,b,e) do', inputs=ins)
 
 
+def split_label_post(C):
+    """the two triangles that replace face 1 are given the label of face 1, the two that replace face 2 the label of face 2
+    (creation order in the source: f3, f5 from face 1; f4, f6 from face 2)"""
+    if C.outcome != 'ret': return []
+    o, n = C.old, C.new
+    g = split_cfg(C)
+    gh = C.post_state.ghost
+    if gh.get('nf_count', 0) != 4 or gh.get('label_count', 0) != 4:
+        return [('each-of-the-four-new-faces-is-labelled-once', z3.BoolVal(False))]
+    fl = g['fl']
+    t1, t2 = o.f(g['F1'], 'face.type_id_'), o.f(g['F2'], 'face.type_id_')
+    ids = [gh['new_face_%d' % k] for k in range(4)]
+    want = {0: t1, 1: t1, 2: t2, 3: t2}
+    out = []
+    for k in range(4):
+        slot = n.elem(fl, ids[k])
+        # some label call addresses this new face, and every call that addresses it carries the label of the face it replaces
+        addressed = z3.Or(*[gh['label_%d_face' % j] == slot for j in range(4)])
+        right = z3.And(*[z3.Implies(gh['label_%d_face' % j] == slot, gh['label_%d_value' % j] == want[k]) for j in range(4)])
+        distinct = z3.And(*[ids[i] != ids[j] for i in range(4) for j in range(i + 1, 4)])
+        calls = z3.And(*[gh['label_%d_face' % j] == n.elem(fl, ids[m]) for j, m in enumerate((0, 2, 1, 3))]) if False else z3.BoolVal(True)
+        out.append(('new-face-%d-is-given-the-label-of-the-face-it-replaces' % (k + 3), z3.And(addressed, right), None, [distinct]))
+    return out
+
+
 def split_light_post(C):
-    return [it for it in split_post(C) if it[0].startswith(('cover:', 'new-node-sits', 'momentum-', 'no-surviving', 'failure-is', 'a-node-was'))] + split_winding_post(C)
+    return [it for it in split_post(C) if it[0].startswith(('cover:', 'new-node-sits', 'momentum-', 'no-surviving', 'failure-is', 'a-node-was'))] + split_winding_post(C) + split_label_post(C)
 
 
 def split_edge_contract(prop, full=False):
@@ -700,6 +745,21 @@ int main(int argc, char** argv){
     if(mode == "split"){ local_mesh_refiner lmr(0.1, 0.4, false); pass(lmr, "split pass"); }
     else if(mode == "dimple"){ local_mesh_refiner lmr(1e-4, 0.2, false); double v0 = pass(lmr, "split pass on a cell with an invagination");
       if(std::fabs(signed_volume(c) - v0) > 1e-9 * std::fabs(v0)){ printf("FAIL splits changed the enclosed volume %g -> %g\n", v0, signed_volume(c)); bad = 1; } }
+    else if(mode == "swap"){
+      // every edge of the sphere is offered to swap_edge; afterwards the cached normal of every used face must lie on the side given
+      // by its winding (the cache is what split_edge and the force routines read)
+      local_mesh_refiner lmr(0.1, 5.0, true); int swaps = 0;
+      std::vector<edge> es(c->get_edge_set().begin(), c->get_edge_set().end());
+      for(edge e0: es){ auto cur = c->get_edge(e0.n1(), e0.n2()); if(!cur.has_value() || !cur.value().is_manifold()) continue; edge e = cur.value(); size_t nf = c->face_lst_.size(); unsigned f1 = e.f1();
+        lmr.swap_edge(e, c); if(!c->get_edge(e0.n1(), e0.n2()).has_value()) swaps++; }
+      int wrong = 0; for(const face& f: c->get_face_lst()){ if(!f.is_used()) continue; auto [a,b,d] = f.get_node_ids();
+        const vec3& p = c->get_node_lst()[a].pos(); const vec3& q = c->get_node_lst()[b].pos(); const vec3& r = c->get_node_lst()[d].pos();
+        if((q - p).cross(r - p).dot(f.get_normal()) < 0) wrong++; }
+      printf("%d swaps performed\n", swaps);
+      if(wrong){ printf("FAIL after the swaps %d faces have a cached normal on the opposite side of their winding\n", wrong); bad = 1; }
+      int inc = inconsistent_edges(c); if(inc){ printf("FAIL after the swaps %d edges are traversed in the same direction by both triangles\n", inc); bad = 1; }
+      if(!c->is_manifold()){ printf("FAIL after the swaps the surface is not a closed manifold\n"); bad = 1; }
+    }
     else if(mode == "rebase"){
       // a collapse (frees two face and two node slots after adding one node) followed by one split (takes the free face slots and one node
       // slot): face queue empty, node queue not. The compaction must leave an edge set that agrees with the renumbered triangles.
@@ -761,3 +821,170 @@ def replay_recorded(data):
     args = data.get('native', {}).get('args') or ['split']
     code, out = native.run_driver(DRIVER, args, sanitize=True, timeout=900)
     return {'confirmed': code not in (0, 124, 125), 'output': out}
+
+
+# ---- local_mesh_refiner::swap_edge (light: what it requests, the face cache of the new faces, what it leaves alone) ---------------------------------
+def add_face_view_with_cache(prop):
+    """add_face as swap_edge sees it: frame, result range, and (C12 through update_face_normal_and_area, called by add_face) the cached
+    normal of the new face lies on the side of the winding it was created with"""
+    base = add_face_view(prop)
+    def post(C):
+        o, n = C.old, C.new
+        c = C.this
+        fl = faces(o, c); q = ffq(o, c); nl = nodes(o, c)
+        src = C.arg('f').ref
+        slot = n.elem(fl, C.ret)
+        ids = [o.f(src, 'face.n%d_id_' % j) for j in (1, 2, 3)]
+        P = [n.v3(n.elem(nl, k), 'node.pos_') for k in ids]
+        cr = (P[1] - P[0]).cross(P[2] - P[0])
+        return [('returns-a-slot-of-the-list', z3.And(C.ret >= 0, C.ret < n.len(fl))), ('face-list-does-not-shrink', n.len(fl) >= o.len(fl)),
+                ('new-face-has-the-requested-nodes', z3.And(*[n.f(slot, 'face.n%d_id_' % j) == ids[j - 1] for j in (1, 2, 3)], n.f(slot, 'face.is_used_'), n.f(slot, 'face.local_face_id_') == C.ret)),
+                ('cached-normal-of-the-new-face-follows-its-winding', n.v3(slot, 'face.normal_').dot(cr) >= 0),
+                ('other-faces-keep-their-nodes-and-cache', QForall(lambda j: z3.Implies(z3.And(j >= 0, j < o.len(fl), j != C.ret),
+                                                                                     z3.And(*[n.f(o.elem(fl, j), 'face.n%d_id_' % i) == o.f(o.elem(fl, j), 'face.n%d_id_' % i) for i in (1, 2, 3)],
+                                                                                            n.v3(o.elem(fl, j), 'face.normal_').eq(o.v3(o.elem(fl, j), 'face.normal_')))), 1, 'other faces')),
+                ('other-vectors-untouched', QForall(lambda r: z3.Implies(z3.And(r != fl, r != q), z3.And(n.f(r, 'vec.len') == o.f(r, 'vec.len'), n.f(r, 'vec.epoch') == o.f(r, 'vec.epoch'))), 1, 'other vectors'))]
+    base.post = post
+    base.name = 'cell::add_face (view: frame, result, requested nodes, cached normal follows the winding [C12])'
+    return base
+
+
+def swap_pre(C):
+    keep = ('cell-non-null', 'the-edge-is-a-stored-manifold-edge', 'its-nodes-and-faces-are-used-slots', 'both-faces-contain-the-edge', 'opposite-nodes-are-used-slots-and-differ', 'list-sizes',
+            'stored-edges-match-their-keys', 'the-other-four-edges-exist-and-list-their-face')
+    o = C.old
+    g = split_cfg(C)
+    s = g['s']
+    ek = lambda x, y: ekey(C.e, x, y)
+    extra = [('the-four-outer-edges-have-two-faces', z3.And(*[z3.And(stored(o, s, ek(x, y), 'f1_id_.has'), stored(o, s, ek(x, y), 'f2_id_.has'))
+                                                              for (x, y) in ((g['a'], g['cc']), (g['cc'], g['b']), (g['b'], g['dd']), (g['dd'], g['a']))])),
+             ('the-faces-across-the-outer-edges-are-slots', z3.BoolVal(True))]
+    base = []
+    for (nm, gl) in split_pre_nosets(C):
+        if nm in keep: base.append((nm, gl))
+    return base + extra[:1]
+
+
+def split_pre_nosets(C):
+    """split_pre without the clause about the set of edges to check (swap_edge has no such parameter)"""
+    o = C.old
+    g = split_cfg(C)
+    e = g['e']; a, b, f1, f2, cc, dd, s, nl, fl = g['a'], g['b'], g['f1'], g['f2'], g['cc'], g['dd'], g['s'], g['nl'], g['fl']
+    ek = lambda x, y: ekey(C.e, x, y)
+    used_node = lambda k: z3.And(k >= 0, k < o.len(nl), o.f(o.elem(nl, k), 'node.is_used_'), o.f(o.elem(nl, k), 'node.node_id_') == k)
+    used_face = lambda k, F: z3.And(k >= 0, k < o.len(fl), o.f(F, 'face.is_used_'), o.f(F, 'face.local_face_id_') == k)
+    return [('cell-non-null', z3.And(g['c'] > 0, C.e.root_of(g['c']) > 0)),
+            ('the-edge-is-a-stored-manifold-edge', z3.And(a < b, e.f['f1_id_'].f['has'], e.f['f2_id_'].f['has'], f1 != f2, member(o, s, ek(a, b)),
+                                                          stored(o, s, ek(a, b), 'f1_id_.has'), stored(o, s, ek(a, b), 'f2_id_.has'),
+                                                          stored(o, s, ek(a, b), 'f1_id_.value') == f1, stored(o, s, ek(a, b), 'f2_id_.value') == f2)),
+            ('its-nodes-and-faces-are-used-slots', z3.And(used_node(a), used_node(b), used_face(f1, g['F1']), used_face(f2, g['F2']))),
+            ('both-faces-contain-the-edge', z3.And(face_has_nodes(o, g['F1'], a, b), face_has_nodes(o, g['F2'], a, b))),
+            ('opposite-nodes-are-used-slots-and-differ', z3.And(used_node(cc), used_node(dd), cc != dd)),
+            ('list-sizes', z3.And(o.len(nl) < 2 ** 30, o.len(fl) < 2 ** 30)),
+            ('stored-edges-match-their-keys', edges_wf(o, g['c'])),
+            ('the-other-four-edges-exist-and-list-their-face', z3.And(edge_can_lose(o, s, ek(a, cc), f1), edge_can_lose(o, s, ek(cc, b), f1), edge_can_lose(o, s, ek(a, dd), f2), edge_can_lose(o, s, ek(dd, b), f2),
+                                                                     has_face(o, s, ek(a, cc), f1), has_face(o, s, ek(cc, b), f1), has_face(o, s, ek(a, dd), f2), has_face(o, s, ek(dd, b), f2)))]
+
+
+def swap_post(C):
+    if C.outcome != 'ret':
+        return [('failure-is-reported-by-the-integrity-exception', z3.BoolVal(C.outcome == 'throw:mesh_integrity_exception'))]
+    o, n = C.old, C.new
+    g = split_cfg(C)
+    gh = C.post_state.ghost
+    nl, fl = g['nl'], g['fl']
+    out = [('no-node-moves-or-changes-momentum', QForall(lambda k: z3.Implies(z3.And(k >= 0, k < o.len(nl)), same_node(n, o, o.elem(nl, k))), 1, 'nodes'))]
+    cnt = gh.get('nf_count', 0)
+    out.append(('cover:swap-performed', z3.BoolVal(cnt == 2)))
+    if cnt == 2:
+        for k in range(2):
+            fid = gh['new_face_%d' % k]
+            F = n.elem(fl, fid)
+            ids = [n.f(F, 'face.n%d_id_' % j) for j in (1, 2, 3)]
+            P = [n.v3(n.elem(nl, i), 'node.pos_') for i in ids]
+            cr = (P[1] - P[0]).cross(P[2] - P[0])
+            out.append(('cached-normal-of-new-face-%d-lies-on-the-side-of-its-final-winding' % (k + 3), n.v3(F, 'face.normal_').dot(cr) >= 0))
+            out.append(('new-face-%d-joins-the-two-opposite-nodes-and-one-end-of-the-old-edge' % (k + 3),
+                        z3.And(face_has_nodes(n, F, g['cc'], g['dd']), z3.Or(*[z3.Or(x == g['a'], x == g['b']) for x in ids]))))
+    return out
+
+
+def swap_edge_contract(prop):
+    return Contract('local_mesh_refiner::swap_edge', prop, pre=swap_pre, post=swap_post,
+                    use=[add_face_view_with_cache(prop), delete_face_view(prop), get_edge_contract(prop, assumed=True), check_winding_contract(prop, assumed=True)],
+                    safety={'bounds', 'dangling-ref', 'null-deref', 'optional'}, name='local_mesh_refiner::swap_edge(requests, face cache, frame)')
+
+
+# ---- local_mesh_refiner::can_be_merged: the link condition -----------------------------------------------------------------------------------------------
+def neighbour_list(tag):
+    def rm(C, st):
+        import ty
+        v = ObjLV(C.e.new_object(), ty.parse('std::vector<unsigned int>'))
+        ln = C.e.fresh('nb_neighbours', I); st.pc.append(ln >= 0); C.e.hwrite(st, 'vec.len', v.ref, ln)
+        k = st.ghost.get('ring_count', 0)
+        st.ghost['ring_count'] = k + 1
+        st.ghost['ring_%d_node' % k] = C.val('node_id'); st.ghost['ring_%d_list' % k] = v.ref
+        return v
+    return rm
+
+
+def can_merge_pre(C):
+    c = C.arg('c').ref
+    e = C.val('e_ab')
+    return [('cell-non-null', z3.And(c > 0, C.e.root_of(c) > 0)), ('edge-is-manifold', z3.And(e.f['f1_id_'].f['has'], e.f['f2_id_'].f['has'])),
+            ('edge-nodes-and-faces-are-slots', z3.And(e.f['n1_id_'] >= 0, e.f['n1_id_'] < C.old.len(nodes(C.old, c)), e.f['n2_id_'] >= 0, e.f['n2_id_'] < C.old.len(nodes(C.old, c)),
+                                                      e.f['f1_id_'].f['value'] >= 0, e.f['f1_id_'].f['value'] < C.old.len(faces(C.old, c)), e.f['f2_id_'].f['value'] >= 0, e.f['f2_id_'].f['value'] < C.old.len(faces(C.old, c)))),
+            ('node-ids-are-their-slots', z3.And(C.old.f(C.old.elem(nodes(C.old, c), e.f['n1_id_']), 'node.node_id_') == e.f['n1_id_'], C.old.f(C.old.elem(nodes(C.old, c), e.f['n2_id_']), 'node.node_id_') == e.f['n2_id_']))]
+
+
+def can_merge_post(C):
+    if C.outcome != 'ret': return [('no-exception', z3.BoolVal(C.outcome == 'throw:mesh_integrity_exception'))]
+    g = C.post_state.ghost
+    e = C.val('e_ab')
+    if g.get('isect_count', 0) != 1 or g.get('ring_count', 0) != 2:
+        return [('the-answer-comes-from-the-common-neighbours-of-the-two-end-nodes', z3.BoolVal(False))]
+    return [('the-neighbour-rings-of-the-two-end-nodes-are-intersected', z3.And(g['ring_0_node'] == e.f['n1_id_'], g['ring_1_node'] == e.f['n2_id_'],
+                                                                                 z3.Or(z3.And(g['isect_a'] == g['ring_0_list'], g['isect_b'] == g['ring_1_list']), z3.And(g['isect_a'] == g['ring_1_list'], g['isect_b'] == g['ring_0_list'])),
+                                                                                 g['isect_whole'])),
+            ('collapse-is-allowed-iff-exactly-two-common-neighbours', C.ret == (g['isect_card'] == 2))]
+
+
+def can_be_merged_contract(prop):
+    ring = Contract('cell::get_connected_nodes', prop, assumed=True, frame=lambda C: [], ret_model=neighbour_list('ring'),
+                    name='cell::get_connected_nodes (the ring of neighbours of a node; side-effect free)')
+    return Contract('local_mesh_refiner::can_be_merged', prop, pre=can_merge_pre, post=can_merge_post, use=[ring], safety={'bounds', 'null-deref'},
+                    name='local_mesh_refiner::can_be_merged(link condition)')
+
+
+# ---- cell::check_face_winding_order (static helper) ---------------------------------------------------------------------------------------------------------
+def cfwo_pre(C):
+    o = C.old
+    r = C.arg('ref_face').ref; f = C.arg('f').ref
+    rn = [o.f(r, 'face.n%d_id_' % j) for j in (1, 2, 3)]; fn = [o.f(f, 'face.n%d_id_' % j) for j in (1, 2, 3)]
+    common = sum([z3.If(x == y, 1, 0) for x in rn for y in fn])
+    return [('two-different-faces', r != f), ('faces-have-three-different-nodes-each', z3.And(rn[0] != rn[1], rn[1] != rn[2], rn[0] != rn[2], fn[0] != fn[1], fn[1] != fn[2], fn[0] != fn[2])),
+            ('faces-share-exactly-one-edge', common == 2)]
+
+
+def traverses(nodes, u, v):
+    """the cyclic order nodes[0] -> nodes[1] -> nodes[2] -> nodes[0] goes from u to v"""
+    return z3.Or(z3.And(nodes[0] == u, nodes[1] == v), z3.And(nodes[1] == u, nodes[2] == v), z3.And(nodes[2] == u, nodes[0] == v))
+
+
+def cfwo_post(C):
+    if C.outcome != 'ret': return [('does-not-throw', z3.BoolVal(False))]
+    o, n = C.old, C.new
+    r = C.arg('ref_face').ref; f = C.arg('f').ref
+    rn = [o.f(r, 'face.n%d_id_' % j) for j in (1, 2, 3)]
+    f0 = [o.f(f, 'face.n%d_id_' % j) for j in (1, 2, 3)]; f1 = [n.f(f, 'face.n%d_id_' % j) for j in (1, 2, 3)]
+    u, v = z3.Ints('common_u common_v')
+    shared = z3.And(u != v, z3.Or(*[x == u for x in rn]), z3.Or(*[x == v for x in rn]), z3.Or(*[x == u for x in f0]), z3.Or(*[x == v for x in f0]))
+    return [('face-keeps-its-nodes-possibly-with-first-and-third-exchanged', z3.Or(z3.And(*[a == b for a, b in zip(f1, f0)]), z3.And(f1[0] == f0[2], f1[1] == f0[1], f1[2] == f0[0]))),
+            ('the-shared-edge-is-traversed-in-opposite-directions-afterwards', z3.Implies(z3.And(shared, traverses(rn, u, v)), traverses(f1, v, u))),
+            ('reference-face-untouched', z3.And(*[n.f(r, 'face.n%d_id_' % j) == o.f(r, 'face.n%d_id_' % j) for j in (1, 2, 3)])),
+            ('cover:winding-corrected', f1[0] != f0[0]), ('cover:winding-kept', f1[0] == f0[0])]
+
+
+def check_winding_contract(prop, assumed=False):
+    return Contract('cell::check_face_winding_order', prop, pre=cfwo_pre, post=cfwo_post, assigns=['face.n1_id_', 'face.n3_id_', 'vec.*'], assumed=assumed,
+                    safety=() if assumed else {'bounds'}, name='cell::check_face_winding_order' + (' (own contract)' if assumed else ''))
